@@ -32,7 +32,7 @@ QUICK = {
     "type": ["0", "3", "-1", "x", BIG, "²"],
     "payload": ["", "p"],
     "tails": [[], ["q"]],
-    "endings": ["", "\n", "\r\n", " \n"],
+    "endings": ["\n", " \r\n"],
 }
 
 
